@@ -403,6 +403,108 @@ u_big(uint64_t idx, void *arg)
     vh_countf("large data size %zu", size);
 }
 
+/* images whose checksum is a remarkable value: 0 and all-ones, for each algorithm */
+static int
+remarkable_image(int ck, unsigned char *img, size_t size, uint32_t target, unsigned salt)
+{
+    for (size_t i = 0; i < size; i++)
+        img[i] = (unsigned char)((i * 41u) ^ (salt * 17u) ^ 0x5au);
+    if (ck == CK_SUM32) {
+        /* the algorithm can be run backwards: choose the initial value */
+        uint32_t v = target;
+        for (size_t i = size; i-- > 0;) {
+            v -= img[i] + 0x9e3779b9u;
+            v = (v >> 5) | (v << 27);
+        }
+        ps_sum32_init = v;
+        return ps_ref(ck, img, size) == target;
+    }
+    if (size < 2)
+        return 0;
+    for (unsigned v = 0; v < 65536; v++) {
+        img[size - 2] = (unsigned char)v;
+        img[size - 1] = (unsigned char)(v >> 8);
+        if (ps_ref(ck, img, size) == (target & 0xffffu))
+            return 1;
+    }
+    return 0;
+}
+
+static void
+u_remarkable(uint64_t idx, void *arg)
+{
+    (void)arg;
+    static const size_t sizes[] = { 2, 3, 8, 33, 64 };
+    const size_t size = sizes[idx % 5];
+    const int ck = (int)((idx / 5) % NCK);
+    const int with_aux = (int)((idx / 15) & 1);
+    const size_t auxsize = with_aux ? 1 + (idx / 30) % 7 : 0;
+    const size_t cks = ps_cksize(ck);
+    const uint32_t place = 7;
+    ncase = 0;
+    for (int tg = 0; tg < 2; tg++) {
+        const uint32_t target = tg ? 0xffffffffu : 0u;
+        unsigned char image[64], second[64];
+        ps_sum32_init = 0x12345678u;
+        if (!remarkable_image(ck, image, size, target, (unsigned)idx)) {
+            VH_COUNT("no image with the wanted checksum found (skipped)");
+            continue;
+        }
+        vh_arena_reset();
+        ps_medium_setup(place, cks + size);
+        memset(ps_medium, 0x3C, cks + size);
+        unsigned char *aux = with_aux ? vh_arena(auxsize) : NULL;
+        PersistentStorage st;
+        ps_configure(&st, size, place, ck, aux, auxsize, with_aux);
+        char key[96], ctx[200];
+        snprintf(key, sizeof key, "checksum=%s aux=%s image=checksum-%s", ps_ckname[ck], with_aux ? "yes" : "none",
+                 tg ? "all-ones" : "zero");
+        VH_CASE4(idx, size, ck, tg);
+        snprintf(ctx, sizeof ctx, "size=%zu auxsize=%zu full store of an image whose checksum is %s", size, auxsize,
+                 tg ? "all-ones" : "zero");
+        unsigned char *src = vh_arena_copy(image, size);
+        ps_log_reset();
+        PersistentAccess rc = persistent_store(&st, src);
+        if (rc != PERSISTENT_ACCESS_SUCCESS)
+            vh_fail("store-rc", key, "%s: rc=%d", ctx, rc);
+        expect_valid_state(&st, ck, size, image, key, ctx);
+        vh_countf("image whose checksum is %s stored and validated", tg ? "all-ones" : "zero");
+        /* reach the same image through a partial store from a different one */
+        memcpy(second, image, size);
+        second[0] ^= 0x55;
+        src = vh_arena_copy(second, size);
+        persistent_store(&st, src);
+        unsigned char *one = vh_arena_copy(image, 1);
+        ps_log_reset();
+        rc = persistent_store_part(&st, one, 0, 1);
+        snprintf(ctx, sizeof ctx, "size=%zu auxsize=%zu partial store completing an image whose checksum is %s", size,
+                 auxsize, tg ? "all-ones" : "zero");
+        if (rc != PERSISTENT_ACCESS_SUCCESS)
+            vh_fail("store-part-rc", key, "%s: rc=%d", ctx, rc);
+        expect_valid_state(&st, ck, size, image, key, ctx);
+        /* every single-octet alteration of it */
+        for (size_t pos = 0; pos < cks + size; pos++) {
+            unsigned char old = ps_medium[pos];
+            ps_medium[pos] = (unsigned char)(old ^ (1u << (pos & 7)));
+            snprintf(ctx, sizeof ctx, "size=%zu auxsize=%zu image with checksum %s, octet %zu altered", size, auxsize,
+                     tg ? "all-ones" : "zero", pos);
+            expect_valid_state(&st, ck, size, NULL, key, ctx);
+            ps_medium[pos] = old;
+            ncase++;
+        }
+        /* and the blank media: everything 00, everything ff */
+        for (int fill = 0; fill < 2; fill++) {
+            memset(ps_medium, fill ? 0xff : 0x00, cks + size);
+            snprintf(ctx, sizeof ctx, "size=%zu auxsize=%zu medium all %s", size, auxsize, fill ? "ff" : "00");
+            expect_valid_state(&st, ck, size, NULL, key, ctx);
+            ncase++;
+        }
+        vh_sig(0x10c00000ull ^ (idx << 4) ^ (uint64_t)tg);
+    }
+    ps_sum32_init = 0x12345678u;
+    *vh_ncases += ncase;
+}
+
 /* set-up histories: the same instance is placed and given checksum algorithms several times, in any order,
  * before it is used; what counts is the last placement and the last algorithm */
 static void
@@ -476,6 +578,10 @@ harness_run(void)
     for (uint64_t i = 0; i < 60; i++)
         if (vh_tier || i % 7 == 0 || i % 10 >= 6)
             vh_unit("big", i, u_big, NULL);
+    for (uint64_t i = 0; i < (vh_tier ? 210u : 30u); i++)
+        vh_unit("remarkable", i, u_remarkable, NULL);
+    vh_require("image whose checksum is zero stored and validated");
+    vh_require("image whose checksum is all-ones stored and validated");
     vh_require("large data size 65536");
     vh_require("large data size 70000");
     static const char *req[] = { "set-up history changing the checksum width after the last placement",
